@@ -127,6 +127,13 @@ Section Frameable.
     assert (existsb opens_section cs = true) by (apply existsb_exists; exists t; auto). congruence.
   Qed.
 
+  Lemma frameable_dyn_splice key ctag : frameable (dyn_splice B OR key) ctag.
+  Proof.
+    unfold dyn_splice. destruct (o_dyn OR _) as [[ns ws]|]; [|exact I].
+    destruct (forallb dyn_node_ok ns); [|exact I].
+    cbn [frameable]. intros _ ns'. apply frameable_append_all. exact I.
+  Qed.
+
   Inductive all_sub (P : tok -> Prop) : tok -> Prop :=
   | AllSub : forall t, P t -> Forall (all_sub P) (children t) -> all_sub P t.
 
@@ -152,6 +159,7 @@ Section Frameable.
     | |- frameable (new_text_elem _ _ _ _) _ => apply frameable_new_text_elem
     | |- frameable (append_raws _ _) _ => apply frameable_append_raws
     | |- frameable (append_all _ _) _ => apply frameable_append_all
+    | |- frameable (dyn_splice _ _ _) _ => apply frameable_dyn_splice
     | |- frameable (append_text _ _) _ => unfold append_text
     | |- frameable (create_highlighted_code_block _ _ _ _ _ _) _ => apply frameable_chcb
     | |- frameable (colspecs _ _ _) _ => apply frameable_colspecs
@@ -186,7 +194,8 @@ Section Frameable.
   Proof.
     intro H. unfold render_link_unknown. destruct (is_sphinx B).
     - destruct (split_hash _ _) as [pd pid]. cbn [frameable]. intro o.
-      destruct (o_path2doc OR pd) as [[d|]|]; apply frameable_wrap; assumption.
+      destruct (o_path2doc OR pd) as [[d|]|]; try (apply frameable_wrap; assumption).
+      destruct (match pid with Some _ => o_docjoin OR pd | None => None end); apply frameable_wrap; assumption.
     - repeat fr_step.
   Qed.
 
@@ -194,7 +203,9 @@ Section Frameable.
     Forall fr_ok cs -> frameable (render_link_path B C OR t (map (build B C OR) cs)) ctag.
   Proof.
     intro H. unfold render_link_path. destruct (is_sphinx B).
-    - cbn [frameable]. intro o. apply frameable_wrap; assumption.
+    - destruct (negb _ && negb _).
+      + cbn [frameable]. intro w. apply frameable_link_url; assumption.
+      + cbn [frameable]. intro o. apply frameable_wrap; assumption.
     - cbn [frameable]. intro w. apply frameable_link_url; assumption.
   Qed.
 
@@ -401,5 +412,10 @@ Section Frameable.
       unfold render_field_list. cbn [frameable]. intros o [a msgs]. cbn [frameable].
       split; [|intro; exact I]. apply frameable_field_loop. exact IHcs.
     - (* span *) apply frameable_container; auto.
+    - (* colon_fence *) unfold render_colon_fence. repeat fr_step.
+    - (* myst_role *) unfold render_myst_role. repeat fr_step.
+    - (* substitution_inline *) apply frameable_dyn_splice.
+    - (* substitution_block *) apply frameable_dyn_splice.
+    - (* front_matter *) apply frameable_dyn_splice.
   Qed.
 End Frameable.
